@@ -12,7 +12,7 @@ META = {
              'distinct = digest(curve, configuration); non-trivial = 2 < k* < n'),
     'require': {'grdp': 1200, 'mp_grdp': 1200, 'min_point_rdp': 1200, 'nontrivial': 300},
     'scale': {'quick': 1, 'thorough': 30},
-    'quick_cases': 1600, 'thorough_cases': 60000,
+    'quick_cases': 4000, 'thorough_cases': 60000,
     'assumptions': ['S_k and the global cost are recomputed with the saved originals of rdp_fixed / compute_global_cost '
                     '(the latter with a fresh cache): C05 and C15 decide those two on their own'],
 }
